@@ -213,8 +213,12 @@ func (w *World) Gen() *GenTx {
 		case "createcoin":
 			res := new(big.Int).Add(w.R.BigBelow(pip(100000)), pip(10000))
 			amt := new(big.Int).Add(w.R.BigBelow(pip(1000000)), pip(1))
+			maxs := new(big.Int).Mul(amt, Z(int64(1+w.R.Intn(1000))))
+			if w.R.Intn(4) == 0 { // hardly any room below the maximum supply: purchases run into the cap
+				maxs = new(big.Int).Add(amt, w.R.BigBelow(pip(60)))
+			}
 			typ, data = transaction.TypeCreateCoin, transaction.CreateCoinData{Name: "c", Symbol: w.sym(), InitialAmount: amt, InitialReserve: res,
-				ConstantReserveRatio: uint32(10 + w.R.Intn(91)), MaxSupply: new(big.Int).Mul(amt, Z(int64(1+w.R.Intn(1000))))}
+				ConstantReserveRatio: uint32(10 + w.R.Intn(91)), MaxSupply: maxs}
 		case "createtoken":
 			amt := new(big.Int).Add(w.R.BigBelow(pip(1000000)), pip(1))
 			typ, data = transaction.TypeCreateToken, transaction.CreateTokenData{Name: "t", Symbol: w.sym(), InitialAmount: amt,
